@@ -67,7 +67,20 @@ fn now_unix() -> i64 {
 }
 
 /// The typed part of the builder chain (before `boxed()`), as far as the case's plan puts calls there.
-fn typed_part<R: std::io::Read + Send + 'static>(mut r: Response<R>, case: &RespCase) -> tiny_http::ResponseBox {
+fn typed_part<R: std::io::Read + Send + 'static>(r: Response<R>, case: &RespCase) -> tiny_http::ResponseBox {
+    box_part(typed_ops(r, case), case)
+}
+
+fn box_part<R: std::io::Read + Send + 'static>(r: Response<R>, case: &RespCase) -> tiny_http::ResponseBox {
+    let b = r.boxed();
+    if case.plan & 2 != 0 {
+        b.boxed()
+    } else {
+        b
+    }
+}
+
+fn typed_ops<R: std::io::Read + Send + 'static>(mut r: Response<R>, case: &RespCase) -> Response<R> {
     let p = case.plan;
     if p & 16 != 0 && p & 32 == 0 {
         // (every integer type the status can be given in)
@@ -91,12 +104,7 @@ fn typed_part<R: std::io::Read + Send + 'static>(mut r: Response<R>, case: &Resp
             r = r.with_chunked_threshold(t);
         }
     }
-    let b = r.boxed();
-    if p & 2 != 0 {
-        b.boxed()
-    } else {
-        b
-    }
+    r
 }
 
 pub fn build_boxed(case: &RespCase) -> tiny_http::ResponseBox {
@@ -147,10 +155,18 @@ pub fn build_boxed(case: &RespCase) -> tiny_http::ResponseBox {
         // (the only Clone impl: Response<io::Empty>; a clone must carry the same policy state)
         Ctor::Empty => {
             let r = Response::empty(st0);
-            if case.body_seed % 2 == 0 {
-                typed_part(r.clone(), case)
-            } else {
-                typed_part(r, case)
+            match case.body_seed % 3 {
+                // cloned fresh from the constructor
+                0 => typed_part(r.clone(), case),
+                // cloned after the typed builder calls (a template with its headers, declared length
+                // and threshold, cloned per use)
+                1 => {
+                    let r = typed_ops(r, case);
+                    let c = r.clone();
+                    drop(r);
+                    box_part(c, case)
+                }
+                _ => typed_part(r, case),
             }
         }
         Ctor::NewEmpty => typed_part(Response::new_empty(StatusCode(st0)), case),
